@@ -6,6 +6,8 @@ mod entropy;
 mod exec;
 mod front;
 mod gen;
+mod p_c20;
+mod p_entropy;
 mod p_resolver;
 mod props;
 mod rsim;
